@@ -273,6 +273,26 @@ def check_energies(ctx, r, B, R, target, site, labels_used, all_labels, dom, mir
                 ctx.fail('property', site, ic, f'energies {list(map(str, got))} but the polynomial of the reported coefficients gives '
                          f'{list(map(str, expect))}', repro=repro, detail=dict(encoding=enc_expr, rows=repr(rows)))
             continue
+        # the same call with an explicit result dtype (`energies(samples_like, dtype=…)`): the same values
+        if rows and r.random() < .35:
+            exact32 = all(Fraction(float(np.float32(float(e)))) == e and abs(e) < 2 ** 20 for e in expect)
+            for dname in (['np.float64'] + (['np.float32'] if exact32 and allow_float else [])):
+                try:
+                    got2 = [F(e) for e in t.energies(R.ev(enc_expr), dtype=R.ev(dname))]
+                except TypeError as e:
+                    if 'dtype' in str(e) or 'keyword' in str(e):
+                        ctx.tick(f'{site}: energies has no dtype argument')
+                        break
+                    got2 = f'{type(e).__name__}: {e}'
+                except Exception as e:  # noqa
+                    got2 = f'{type(e).__name__}: {e}'
+                ctx.tick(f'{site}: energies(dtype={dname})')
+                ctx.case((site, tuple(R.lines[4:]), target, enc_expr, dname), nontrivial=bool(labels_used))
+                if got2 != expect:
+                    ctx.fail('property', site, ic + f'; dtype={dname}', f'energies(…, dtype={dname}) gives {got2 if isinstance(got2, str) else list(map(str, got2))} '
+                             f'but the polynomial of the reported coefficients gives {list(map(str, expect))}',
+                             repro=repro.replace('t.energies(enc)', f't.energies(enc, dtype={dname})'), detail=dict(encoding=enc_expr))
+                    break
         # (i) the model of the loop on what as_samples delivers
         try:
             d_rows, d_labels = real_as_samples(R.ev(enc_expr))
